@@ -320,9 +320,15 @@ func (i *IRCServer) Unmarshal(data []byte) (uint64, error) {
 	if err != nil {
 		return 0, err
 	}
-	hmacSecret, err := hex.DecodeString(snapshot.Config.CaptchaHmacSecret)
-	if err != nil {
-		return 0, err
+	// A network without CaptchaHMACSecret must stay without one:
+	// hex.DecodeString("") returns a non-nil empty slice, which
+	// captchaConfigured() would take for a configured secret.
+	var hmacSecret []byte
+	if snapshot.Config.CaptchaHmacSecret != "" {
+		hmacSecret, err = hex.DecodeString(snapshot.Config.CaptchaHmacSecret)
+		if err != nil {
+			return 0, err
+		}
 	}
 	i.Config = config.Network{
 		Revision: snapshot.Config.Revision,
